@@ -173,9 +173,53 @@ pub mod life {
         fn is_none(o: &Option<(crate::channel::StateId, Tag)>) -> bool { o.is_none() }
     }
 
+    /// C11, mpmc only: dropping the LAST receiver handle discards buffered values immediately, also when the channel
+    /// was closed before (explicitly or by the last sender going away) and a sender handle keeps the state alive.
+    /// Public API only, no futures: create(capacity 2), k try_sends, optional clone of the receiver, optional explicit
+    /// close() from either side, then drop the receiver handles in a symbolic order.
+    pub fn mpmc_discard<M: lock_api::RawMutex + 'static, S: Src>(s: &mut S, p: u32) -> u32 {
+        #[cfg(not(kani))]
+        reset_tags();
+        type B2 = crate::buffer::ArrayBuf<Tag, [Tag; 2]>;
+        let (tx, rx) = crate::channel::shared::generic_channel::<M, Tag, B2>(2);
+        let k = s.below(3);
+        if k > 0 { core::mem::forget(tx.try_send(Tag(1))); }
+        if k > 1 { core::mem::forget(tx.try_send(Tag(2))); }
+        let cloned = s.flag();
+        let rx2 = if cloned { Some(rx.clone()) } else { None };
+        let closer = s.below(3); // 0 nobody, 1 sender side, 2 receiver side
+        if closer == 1 { let _ = tx.close(); } else if closer == 2 { let _ = rx.close(); }
+        let first = s.flag(); // which receiver handle goes first
+        if (p & P18) != 0 { arm_alloc(); }
+        if first { drop(rx); } else if let Some(r) = rx2 { drop(r); core::mem::forget(rx); } else { drop(rx); }
+        // after the first drop: values must still be there iff another receiver handle is alive
+        let other_alive = cloned;
+        if (p & P11) != 0 {
+            if other_alive {
+                assert!(tag_drops(1) == 0 && tag_drops(2) == 0, "C11 mpmc: buffered values were discarded although a receiver handle is still alive");
+            } else {
+                assert!(tag_drops(1) == (k > 0) as u8 && tag_drops(2) == (k > 1) as u8,
+                    "C11 mpmc: dropping the last receiver did not discard the buffered values immediately (a sender handle is still alive)");
+                // and the channel is closed for the sender
+                match tx.try_send(Tag(3)) {
+                    Err(crate::channel::TrySendError::Closed(t)) => core::mem::forget(t),
+                    Ok(()) => assert!(false, "C11 mpmc: the channel stayed open after the last receiver handle was dropped"),
+                    Err(crate::channel::TrySendError::Full(t)) => { core::mem::forget(t); assert!(false, "C11 mpmc: the channel stayed open after the last receiver handle was dropped"); }
+                }
+            }
+        }
+        if (p & P18) != 0 { assert!(alloc_events() == 0, "C18 shared mpmc: dropping a receiver handle allocated or freed heap memory while a sender still references the state"); }
+        let bits = (k as u32) | ((cloned as u32) << 2) | ((closer as u32) << 3);
+        core::mem::forget(tx);
+        s.reached(bits);
+        bits
+    }
+
     pub fn replay(name: &str, _cfg: u32, p: u32, s: &mut ScriptSrc<'_>) -> bool {
         type NL = crate::LocalLock;
         match name {
+            "life_mpmc_discard" => { mpmc_discard::<NL, _>(s, p); }
+            "life_mpmc_discard_check" => { mpmc_discard::<CheckLock, _>(s, p); }
             "life_mpmc" => { hist::<Mpmc<NL>, _>(s, 64, p); }
             "life_oneshot" => { hist::<Oneshot<NL>, _>(s, 64, p); }
             "life_oneshot_bc" => { hist::<OneshotBc<NL>, _>(s, 64, p); }
@@ -259,6 +303,21 @@ pub mod life {
             v.push(1);
             assert!(alloc_events() >= 2, "C18 selftest: an armed Vec allocation was not counted (stubs not applied)");
             core::mem::forget(v);
+        }
+        #[kani::proof]
+        #[kani::unwind(4)]
+        fn life_mpmc_discard() {
+            let b = mpmc_discard::<NL, _>(&mut KaniSrc, P11);
+            kani::cover!(b & 3 == 2 && (b >> 3) == 1, "W discard: two values buffered, closed by the sender before the last receiver goes");
+        }
+        #[kani::proof]
+        #[kani::unwind(4)]
+        fn life_mpmc_discard_check() { let _ = mpmc_discard::<CheckLock, _>(&mut KaniSrc, P11); }
+        #[kani::proof]
+        #[kani::unwind(4)]
+        fn life_witness_mpmc_discard() {
+            let b = mpmc_discard::<NL, _>(&mut KaniSrc, 0);
+            assert!(!(b & 3 == 2 && (b >> 3) == 1 && (b >> 2) & 1 == 0), "WITNESS reached");
         }
         life_proof!(life_mpmc_n3, Mpmc<NL>, 3, P11, 5);
         life_proof!(life_mpmc_n4, Mpmc<NL>, 4, P11, 6);
